@@ -380,6 +380,13 @@ func isolationCase(r *rng.R, dir string) string {
 		cases = append(cases, pool[r.Intn(len(pool))])
 	}
 	model := []string{"6502", "65C02"}[r.Intn(2)]
+	{
+		nm := []string{}
+		for _, dc := range cases {
+			nm = append(nm, dc.name)
+		}
+		pend("isolation %s.%s %v %v %s", spec, model, prexec, trap, strings.Join(nm, ","))
+	}
 	starts, results := isolationRun(spec, model, prexec, trap, dir, cases)
 	eq := []string{}
 	for i, dc := range cases {
